@@ -48,6 +48,9 @@ def run(chk, facts, tier):
             ok = set(per) == set(TRIPLE) and all(v == exp for v in per.values()) and shape_ok
             chk.instance('co-update', fn, '%s: %s' % (name, {k: sorted(v) for k, v in per.items()}), ok,
                          '' if ok else 'event counter, channel index and elapsed time do not advance together by %s (or the channel index is not reduced modulo the number of data channels)' % (sorted(exp) or 'one event'), key=name)
+    # exact steps (linear forms): channel index and event counter move by the same amount in every function
+    from .C20 import index_tracks
+    index_tracks(chk, facts, 'co-update')
     for fn in variants(facts, CS + 'plan_next_connection_event', chk):
         lat = fn.params[0]['n']
         ev = fn.params[1]['n']
